@@ -1116,7 +1116,8 @@ class Exec:
         except (AttributeError, TypeError, KeyError) as ex_:
             short = con.qual.split(".", 1)[1]
             # the arguments do not have the shapes the callee's contract is stated for
-            self.oblige("call@%d.%s.requires.argument_shapes" % (e.lineno, short), BoolVal(False), self.con.tags,
+            tags = [t for t in getattr(con, "tags", []) if t in self.con.tags] or self.con.tags
+            self.oblige("call@%d.%s.requires.argument_shapes" % (e.lineno, short), BoolVal(False), tags,
                         e.lineno, "requires")
             raise Unsupported("contract of %s not applicable to these arguments at %s:%d (%s: %s)" % (
                 con.qual, self.mod, e.lineno, type(ex_).__name__, ex_))
